@@ -725,6 +725,8 @@ def run(ctx):
                        "the real parseToolCalls is tested for additivity on every split where the modes disagree",
                        "wall-clock fields (created_at, total_duration, load_duration), ids and the tool call index (a stream position) are not compared between modes"]
     ctx.proof_stage(["Stream"], "Stream/Properties_C17.v", extra_targets=["Stream/Corr.v"])
+    if not quick:
+        ctx.coqchk(["V.Stream.Properties_C17"])
     binp = ctx.go_build("c17")
     if not binp:
         return
@@ -736,6 +738,28 @@ def run(ctx):
         ctx.proof_failures.append({"obligation": "correspondence: harness c17 died", "detail": str(ex)})
     finally:
         h.close()
+
+
+EXH_TEXTS = [("tools", '{"name":"a","arguments":{}}{"name":"b","arguments":{"x":1}}'),
+             ("tools", 'ok {"name":"a","arguments":{"s":"}{"}} then\n{"name":"b","arguments":{}} é'),
+             ("tools2", '[{"name":"a","parameters":{}},{"name":"b","parameters":{}}]')]
+
+
+def exhaustive_cases(quick):
+    """every split of a few two-call texts with one cut (quick) / with one or two cuts (thorough)"""
+    out = []
+    for model, text in EXH_TEXTS[: 1 if quick else 3]:
+        n = len(text)
+        cutsets = [[i] for i in range(1, n)]
+        if not quick:
+            cutsets += [[i, j] for i in range(1, n) for j in range(i + 1, n)]
+        splits = [split_text(text, cs) for cs in cutsets]
+        for k in range(0, len(splits), 12):
+            out.append({"op": "run", "kind": "chat", "model": model, "tools": True, "format": "", "raw": False, "stop": False, "tokfail": False,
+                        "prompt": hx("hi"), "text": text, "splits": [[hx(p) for p in s] for s in splits[k:k + 12]],
+                        "end": {"kind": "done", "reason": 0, "content": "", "pc": 2, "ec": 9, "err": ""},
+                        "modes": ["st", "ns", "v1st", "v1ns"] if k else ALL_MODES, "klass": "exhaustive-cuts/" + model})
+    return out
 
 
 def big_cases():
@@ -755,9 +779,9 @@ def _run(ctx, h, only_cases=None):
     if only_cases is not None:
         cases = only_cases
     else:
-        cases = corpus_cases() + big_cases()
-        cases += [gen_case(rng, nsplits) for _ in range(170 if quick else 2500)]
-        cases += gen_client_cases(rng, 40 if quick else 600)
+        cases = corpus_cases() + big_cases() + exhaustive_cases(quick)
+        cases += [gen_case(rng, nsplits) for _ in range(380 if quick else 2500)]
+        cases += gen_client_cases(rng, 60 if quick else 1000)
     viols = []
     items, meta = [], []
     ctx.log("%d cases generated" % len(cases))
